@@ -37,7 +37,10 @@ def explore(res, rng, n):
         beta = rng.choice([0.5, 1.0, 2.0, 3.0, 4.0, 6.0, 7.5, 8.2])      # (pf down to 1e-16: the first-order factor must be Phi(-beta), not 1 - Phi(beta))
         ks = [rng.choice([0.0, 0.0, 0.1, 0.3, -0.1 / beta, 0.5, -0.2 / beta]) for _ in range(d - 1)]
         with mock.patch.object(sorm, 'mainCurvaturesAtDesignPoint', return_value=(ks, beta, [0.0] * d, [0.0] * d)):
-            outs = {nm: f(d, None, None, None, None)[1] for nm, f in (('breitung', rrm.breitungSORM), ('tvedt', rrm.tvedtSORM), ('hrack', rrm.hrackSORM))}
+            # (valid arguments of a problem of their own in every call: what is replaced is the curvature extraction only)
+            g_ = (lambda X: 0.0)
+            ds_ = [stats.norm() for _ in range(d)]
+            outs = {nm: f(d, g_, None, ds_, np.eye(d).tolist())[1] for nm, f in (('breitung', rrm.breitungSORM), ('tvedt', rrm.tvedtSORM), ('hrack', rrm.hrackSORM))}
         res.evaluations += 1
         res.nontrivial.add(('formula', beta, tuple(ks)))
         res.stat('formula_all_zero_curvature' if not any(ks) else 'formula_curved')
@@ -57,7 +60,7 @@ def explore(res, rng, n):
         perm = ks[:]
         rng.shuffle(perm)
         with mock.patch.object(sorm, 'mainCurvaturesAtDesignPoint', return_value=(perm, beta, [0.0] * d, [0.0] * d)):
-            if not gen.close(rrm.breitungSORM(d, None, None, None, None)[1], outs['breitung'], 1e-12):
+            if not gen.close(rrm.breitungSORM(d, (lambda X: 0.0), None, [stats.norm() for _ in range(d)], np.eye(d).tolist())[1], outs['breitung'], 1e-12):
                 fail(res, 'Breitung depends on the order of the curvatures', case, None)
         # (Hohenbichler-Rackwitz uses phi/Phi in place of beta: at beta = 8.2 that is 1e-15 and the factor is 1 to machine precision, so the
         #  inequality is strict only where phi/Phi * |k| is resolved by binary64)
@@ -237,6 +240,56 @@ def numerical_gradient_small_magnitudes(res):
                  {'analytic_dg': float(a[1]), 'dg_None': float(b[1]), 'formula': want})
 
 
+def reuse_and_unit(res, rng):
+    """(1) a parametric study: ONE limit-state object (and one list of gradient callables, one list of marginals) whose parameters are
+    changed between calls - every call must answer for the parameters of that moment; (2) the unit of g: the paraboloid multiplied by
+    2^-20 … 2^-40 (values of 1e-6 … 1e-12) must give the estimates of the unscaled one (the curvatures are those of the SURFACE g = 0)"""
+    core.import_impl()
+    import numpy as np
+    from scipy import stats
+    from ffpack import rrm
+    Phi, phi = stats.norm.cdf, stats.norm.pdf
+
+    class Par:
+        def __init__(self):
+            self.beta, self.ks, self.scale = 2.0, [0.1, 0.2], 1.0
+
+        def __call__(self, u):
+            u = np.asarray(u, dtype=float)
+            return self.scale * float(self.beta - u[-1] + 0.5 * sum(k * v * v for k, v in zip(self.ks, u[:-1])))
+
+        def grad(self, j):
+            return lambda u, j=j: self.scale * float(-1.0 if j == len(self.ks) else self.ks[j] * np.asarray(u, dtype=float)[j])
+
+    def closed(beta, ks):
+        form = float(Phi(-beta))
+        psi = float(phi(beta) / Phi(beta))
+        return form * math.prod((1 + beta * k) ** -0.5 for k in ks), form * math.prod((1 + psi * k) ** -0.5 for k in ks)
+
+    P = Par()
+    dgs = [P.grad(j) for j in range(3)]
+    dists = [stats.norm(), stats.norm(), stats.norm()]
+    corr = np.eye(3).tolist()
+    seq = [(2.0, [0.1, 0.2], 1.0), (3.0, [0.1, 0.2], 1.0), (3.0, [0.3, -0.05], 1.0), (1.5, [0.0, 0.25], 1.0),
+           (2.0, [0.1, 0.2], 2.0 ** -20), (2.0, [0.1, 0.2], 2.0 ** -30), (2.5, [0.2, 0.05], 2.0 ** -40), (2.0, [0.1, 0.2], 1.0)]
+    for step, (beta, ks, sc) in enumerate(seq):
+        P.beta, P.ks, P.scale = beta, list(ks), sc
+        case = {'step': step, 'beta': beta, 'ks': ks, 'g_multiplied_by': sc, 'earlier_parameters': [list(x[:2]) + [x[2]] for x in seq[:step]]}
+        res.evaluations += 1
+        res.stat('sorm_parametric_study_same_objects' if sc == 1.0 else 'sorm_limit_state_of_tiny_magnitude')
+        wb, wh = closed(beta, ks)
+        try:
+            b, pfb, _, _ = rrm.breitungSORM(3, P, dgs, dists, corr)
+            _, pfh, _, _ = rrm.hrackSORM(3, P, dgs, dists, corr)
+            _, pft, _, _ = rrm.tvedtSORM(3, P, dgs, dists, corr)
+        except Exception as e:  # noqa
+            fail(res, 'SORM raised on a paraboloid (parametric study / small unit of g): ' + repr(e)[:100], case, None)
+            continue
+        if abs(b - beta) > 1e-3 or abs(pfb - wb) > 3e-4 * wb or abs(pfh - wh) > 3e-4 * wh or not (0.0 < pft < 1.0):
+            fail(res, 'paraboloid: estimate is not the closed form for the CURRENT parameters (same objects as in earlier calls, or g in a small unit)', case,
+                 {'beta': float(b), 'breitung': float(pfb), 'closed_breitung': wb, 'hrack': float(pfh), 'closed_hrack': wh})
+
+
 def sorm_model_stream(res, rng, k):
     """the executable Lean model of the curvature extraction (Model/SormPipe.lean: gradient pulled back to U space, alignment vector,
     argmax column, Gram-Schmidt basis, U-space Hessian with the curvature of the marginal maps, conjugation, leading block) against
@@ -314,6 +367,7 @@ def run(tier, seed):
     translate_vec.regenerate(res)      # Gen/VecFormulas.lean from the current source (numpy vector expressions)
     core.prove(res, PID, MODULES, clean=(tier == 'thorough'))
     sorm_model_stream(res, random.Random(seed + 9), 25 if tier == 'quick' else 600)
+    reuse_and_unit(res, random.Random(seed + 10))
     numerical_gradient_small_magnitudes(res)
     n = 6 if tier == 'quick' else 120
     explore(res, random.Random(seed), n)
